@@ -58,7 +58,7 @@ class BehavioralRTLIRToVVisitorL4( BehavioralRTLIRToVVisitorL3 ):
   def visit_Index( s, node ):
     if isinstance( node.value.Type, rt.Array ) and \
         isinstance( node.value.Type.get_sub_type(), rt.InterfaceView ):
-      idx = s.visit( node.idx )
+      idx = s.visit_index_expr( node.idx )
       s._unpacked_q.appendleft(idx)
       value = s.visit( node.value )
       return value
